@@ -1,6 +1,6 @@
 \* editT1
 CONSTANTS MaxCalls = 2
-          MaxArgs = 2
+          MaxArgs = 1
           FreeCalls = 1
           Scope = "editT"
           Adopt = FALSE
@@ -10,7 +10,7 @@ CONSTANTS MaxCalls = 2
           FirstOps = {"inc", "exc", "find", "one"}
           Srcs = {"live", "old"}
           Ons = {"t", "last", "u"}
-          NameIds = {0, 2}
+          NameIds = {0}
           Gen = TRUE
 INIT Init
 NEXT Next
